@@ -302,6 +302,11 @@ def resolve_combinators(t, fv, depth=0):
                     return r(cr)
             if clos and base == "core::option::Option::filter":
                 return args[0]
+            if clos and base in ("core::option::Option::unwrap_or_else", "core::result::Result::unwrap_or_else"):
+                # the payload when there is one, else what the closure computes
+                cr = fv.closure_ret(clos[0][1])
+                if cr is not None:
+                    return mk_phi([mk_payload(args[0]), r(cr)])
             if clos and base == "core::iter::Iterator::find_map":
                 # Some(x) exactly when the closure returned Some(x) for some item
                 cr = fv.closure_ret(clos[0][1])
